@@ -166,7 +166,7 @@ def extract(root="/repo", overlays=None, jobs=16):
     return merged
 
 
-def _prune_cache(keep, maxn=10, max_units=120):
+def _prune_cache(keep, maxn=12, max_units=800):
     try:
         ents = [(os.path.getmtime(os.path.join(CACHE, d)), d) for d in os.listdir(CACHE) if d not in (keep, "units")]
         ents.sort(reverse=True)
